@@ -32,13 +32,23 @@ class Resolver:
             out.append((key, tp.get("get"), tp.get("get_state"), tp.get("set_state")))
         return out
 
-    def producers(self, restr):
-        return [n for n in self.universe if self.match(n.params["name"], "all.." + restr)]
+    def ok(self, n, vm, variant):
+        """Does the flat test admit this variant of the vm (its own per-vm restriction, e.g. `only CentOS`)?"""
+        if variant is None:
+            return True
+        from vt.e4.parsemc import admits
 
-    def chain(self, vm):
+        return admits(n.restrs.get(vm, ""), variant)
+
+    def producers(self, restr, vm=None, variant=None):
+        return [n for n in self.universe if self.match(n.params["name"], "all.." + restr) and self.ok(n, vm, variant)]
+
+    def chain(self, vm, variant=None):
         """state -> (producing flat test, parent state) for the single-vm setup chain of the vm."""
         out = {}
         for n in self.universe:
+            if not self.ok(n, vm, variant):
+                continue
             if ".internal.automated." not in "." + n.params["name"] + "." and ".original." not in "." + n.params["name"] + ".":
                 continue
             for key, get, get_state, set_state in self.decl(n, vm):
@@ -50,8 +60,8 @@ class Resolver:
                     out.setdefault(set_state, (n.params["name"], parent))
         return out
 
-    def path(self, vm, from_state, to_state):
-        ch = self.chain(vm)
+    def path(self, vm, from_state, to_state, variant=None):
+        ch = self.chain(vm, variant)
         if to_state not in ch or from_state not in ch:
             return None
         states = [to_state]
@@ -64,9 +74,9 @@ class Resolver:
             cur = parent
         return list(reversed(states))
 
-    def closure(self, vm, remove_set):
+    def closure(self, vm, remove_set, variant=None):
         """Flat tests of the remove set plus every setup test they need (transitively) for this vm, from the declarations alone."""
-        key = (vm, remove_set)
+        key = (vm, remove_set, variant)
         if not hasattr(self, "_closures"):
             self._closures = {}
         if key in self._closures:
@@ -85,23 +95,23 @@ class Resolver:
                 base = self._strip(name)
                 if not base.startswith(("internal.", "original.")):
                     wanted.add("all." + base)
-        frontier = [n for n in self.universe if n.params["name"] in wanted]
+        frontier = [n for n in self.universe if n.params["name"] in wanted and self.ok(n, vm, variant)]
         seen = {n.params["name"] for n in frontier}
         while frontier:
             n = frontier.pop()
             for key2, get, get_state, set_state in self.decl(n, vm):
                 if not get:
                     continue
-                for p in self.producers(get):
+                for p in self.producers(get, vm, variant):
                     if p.params["name"] not in seen:
                         seen.add(p.params["name"])
                         frontier.append(p)
         self._closures[key] = seen
         return seen
 
-    def derived_states(self, vm, state, remove_set="leaves"):
+    def derived_states(self, vm, state, remove_set="leaves", variant=None):
         """States of the vm derived (transitively) from `state` by the tests of the remove set and their setup, when run on that vm."""
-        members = self.closure(vm, remove_set)
+        members = self.closure(vm, remove_set, variant)
         result = set()
         frontier = [state]
         seen_states = {state}
@@ -113,7 +123,7 @@ class Resolver:
                 for key, get, get_state, set_state in self.decl(n, vm):
                     if not get:
                         continue
-                    prods = self.producers(get)
+                    prods = self.producers(get, vm, variant)
                     parent_states = set()
                     for p in prods:
                         for k2, _, _, ps in self.decl(p, vm):
@@ -133,14 +143,15 @@ class Resolver:
         return result
 
 
-def make_config(vms, nets, vm_params):
+def make_config(vms, nets, vm_params, vm_strs=None):
     from virttest import utils_params
 
     config = {}
     config["available_vms"] = dict(AVAILABLE_VMS)
+    config["available_vms"].update({v: r for v, r in (vm_strs or {}).items()})  # as the command line parser fills it
     config["available_restrictions"] = ["leaves", "normal", "minimal"]
     config["param_dict"] = {"nets": nets}
-    config["vm_strs"] = {v: AVAILABLE_VMS[v] for v in vms}
+    config["vm_strs"] = {v: (vm_strs or {}).get(v, AVAILABLE_VMS[v]) for v in vms}
     config["tests_str"] = {}
     config["tests_params"] = utils_params.Params()
     config["vms_params"] = utils_params.Params(vm_params)
@@ -160,12 +171,12 @@ def analyse(case):
             vp[f"to_state_{v}"] = to
         if remove_set:
             vp[f"remove_set_{v}"] = remove_set
-    config = make_config(vms, nets, vp)
+    config = make_config(vms, nets, vp, case.get("vm_strs"))
     everything = [(f"image1_{v}", s) for v in ("vm1", "vm2", "vm3") for s in ALL_STATES] + [(v, "on_customize") for v in ("vm1", "vm2", "vm3")]
     scn = engine.Scenario("update", "", nets, shared=everything, D=(1.0, 3.0), O=("PASS",))
     r = tools.run_tool(scn, lambda: intertest_setup.update(config, tag="1r"), prefix)
     runs = [(e["w"], e["ident"], e["type"] == "shared_configure_install") for e in r.trace if e["k"] == "start"]
-    unsets = sorted({(e["w"], it[0], it[2]) for e in r.trace if e["k"] == "door" and e["do"] == "unset" for it in e["items"]})
+    unsets = sorted({(e["w"], it[0], it[2], it[1]) for e in r.trace if e["k"] == "door" and e["do"] == "unset" for it in e["items"]})
     gets = [e for e in r.trace if e["k"] == "door" and e["do"] == "get"]
     return {"case": case, "exc": r.exc, "exc_type": r.exc_type, "runs": runs, "unsets": unsets, "rc": r.rc, "points": len(r.points), "door_gets": len(gets),
             "choices": r.choices, "kinds": [p[0] for p in r.points]}
@@ -183,6 +194,22 @@ def state_of_run(ident):
 def vm_of_run(ident):
     m = re.search(r"\.vms\.(vm\d)\.", ident)
     return m.group(1) if m else None
+
+
+_variants = {}
+
+
+def variants_of(vm, restr):
+    """Variant names of the vm objects a restriction admits (flat Cartesian parse of the vm configs only)."""
+    if (vm, restr) not in _variants:
+        from avocado_i2n.cartgraph import TestGraph
+
+        _variants[(vm, restr)] = [o.params["name"].split(f"vms.{vm}.", 1)[1] for o in TestGraph.parse_flat_objects(vm, "vms", restr)]
+    return _variants[(vm, restr)]
+
+
+def variant_in(text, variants):
+    return next((v for v in sorted(variants, key=len, reverse=True) if v in text), None)
 
 
 def run(tier: str, seed: int) -> int:
@@ -220,6 +247,12 @@ def run(tier: str, seed: int) -> int:
         cases.append({"vms": ["vm1", "vm2"], "nets": "net1 net2 net4", "from": "customize", "to": "customize"})
         cases.append({"vms": ["vm1"], "nets": "net1 net2 net3", "from": "install", "to": "connect"})
         cases.append({"vms": ["vm1"], "nets": "net1", "from": "install", "to": "customize", "remove_set": "leaves..tutorial_get"})
+    # vms selected with several variants (or another one than the default): the path is rerun and the dependants dropped per variant
+    for frm, to in ((None, None), ("install", "customize"), ("customize", "customize"), ("customize", "linux_virtuser"), ("on_customize", "on_customize")):
+        cases.append({"vms": ["vm1"], "nets": "net1", "from": frm, "to": to, "vm_strs": {"vm1": ""}})
+    cases.append({"vms": ["vm1"], "nets": "net1 net2", "from": "customize", "to": "connect", "vm_strs": {"vm1": ""}})
+    cases.append({"vms": ["vm1"], "nets": "net1", "from": "customize", "to": "connect", "vm_strs": {"vm1": "only Fedora\n"}})
+    cases.append({"vms": ["vm1", "vm2"], "nets": "net1 net2", "from": "customize", "to": "customize", "vm_strs": {"vm1": "", "vm2": ""}})
     # schedule deviations: for multi-worker cases every single non-default choice
     results = list(common.pmap(analyse, cases))
     extra = []
@@ -235,7 +268,8 @@ def run(tier: str, seed: int) -> int:
     results += list(common.pmap(analyse, extra))
     for r in results:
         c = r["case"]
-        cid = f"vms={','.join(c['vms'])} nets={c['nets']} {c['from']}->{c['to']} remove_set={c.get('remove_set')}"
+        cid = f"vms={','.join(c['vms'])} nets={c['nets']} {c['from']}->{c['to']} remove_set={c.get('remove_set')}" + (f" vm_strs={c['vm_strs']}" if c.get("vm_strs") else "")
+        vmv = {vm: variants_of(vm, (c.get("vm_strs") or {}).get(vm, AVAILABLE_VMS[vm])) for vm in c["vms"]}
         rep.evaluations += 1
         rep.transitions += r["points"] + 1
         rep.traces_validated += 1
@@ -243,15 +277,16 @@ def run(tier: str, seed: int) -> int:
         bogus = c["from"] == "bogus" or c["to"] == "bogus"
         # a state no test of the remove set (with its setup) produces for this vm does not exist in the graph either
         for vm in c["vms"]:
-            members = res.closure(vm, c.get("remove_set") or "leaves")
-            produced = {"install"}
-            for n in res.universe:
-                if n.params["name"] in members:
-                    for key, get, get_state, set_state in res.decl(n, vm):
-                        if set_state:
-                            produced.add(set_state)
-            if (c["to"] or "customize") not in produced:
-                bogus = True
+            for var in (vmv[vm] if c.get("vm_strs") else [None]):
+                members = res.closure(vm, c.get("remove_set") or "leaves", var)
+                produced = {"install"}
+                for n in res.universe:
+                    if n.params["name"] in members:
+                        for key, get, get_state, set_state in res.decl(n, vm):
+                            if set_state:
+                                produced.add(set_state)
+                if (c["to"] or "customize") not in produced:
+                    bogus = True
         if bogus:
             if r["exc"] is None:
                 rep.violation(f"[{cid}] a state that does not exist was accepted (rc={r['rc']}, runs={len(r['runs'])})", inp, {"kind": "bogus-accepted"})
@@ -267,45 +302,47 @@ def run(tier: str, seed: int) -> int:
         for vm in c["vms"]:
             frm = c["from"] or "install"
             to = c["to"] or "customize"
-            path = res.path(vm, frm, to)
-            for s in path:
-                exp_runs.add((vm, s))
-            derived = res.derived_states(vm, to, c.get("remove_set") or "leaves")
-            exp_unsets |= {(vm, s) for s in derived}
+            for var in vmv[vm]:
+                v_ = var if c.get("vm_strs") else None
+                path = res.path(vm, frm, to, v_)
+                derived = res.derived_states(vm, to, c.get("remove_set") or "leaves", v_)
+                for s in path:
+                    exp_runs.add((vm, s, var))
+                exp_unsets |= {(vm, s, var) for s in derived}
         got_runs = {}
         for w, ident, pre in r["runs"]:
             st, vm = state_of_run(ident), vm_of_run(ident)
             if pre:
                 continue
-            got_runs.setdefault((vm, st), []).append(w)
+            got_runs.setdefault((vm, st, variant_in(ident, vmv.get(vm, []))), []).append(w)
         for k, ws in got_runs.items():
             if k not in exp_runs:
-                rep.violation(f"[{cid}] executed {k[1]} of {k[0]} (on {ws}) which is not on the path {sorted(exp_runs)}", inp, {"kind": "extra-run", "state": k[1]})
+                rep.violation(f"[{cid}] executed {k[1]} of {k[0]} [{k[2]}] (on {ws}) which is not on the path {sorted(exp_runs)}", inp, {"kind": "extra-run", "state": k[1]})
             elif len(ws) != 1:
                 rep.violation(f"[{cid}] executed {k[1]} of {k[0]} {len(ws)} times (on {ws}), the path is run once", inp, {"kind": "repeated-run", "state": k[1]})
         for k in exp_runs - set(got_runs):
-            rep.violation(f"[{cid}] did not execute {k[1]} of {k[0]} although it is on the path", inp, {"kind": "missing-run", "state": k[1]})
+            rep.violation(f"[{cid}] did not execute {k[1]} of {k[0]} [{k[2]}] although it is on the path", inp, {"kind": "missing-run", "state": k[1]})
         got_unsets = {}
-        for w, suffix, state in r["unsets"]:
+        for w, suffix, state, variant in r["unsets"]:
             vm = suffix.split("_")[-1]
-            got_unsets.setdefault((vm, state), set()).add(w)
+            got_unsets.setdefault((vm, state, variant_in(variant, vmv.get(vm, []))), set()).add(w)
         for k, ws in got_unsets.items():
             if k[0] not in c["vms"]:
                 rep.violation(f"[{cid}] removed state {k[1]} of unselected {k[0]}", inp, {"kind": "foreign-unset"})
             elif k not in exp_unsets and True:
-                rep.violation(f"[{cid}] removed {k[1]} of {k[0]} which is not derived from the target state (derived: {sorted(s for v, s in exp_unsets if v == k[0])})", inp, {"kind": "extra-unset", "state": k[1]})
+                rep.violation(f"[{cid}] removed {k[1]} of {k[0]} which is not derived from the target state (derived: {sorted({s for v, s, _ in exp_unsets if v == k[0]})})", inp, {"kind": "extra-unset", "state": k[1]})
             elif k not in exp_unsets:
                 rep.violation(f"[{cid}] removed {k[1]} of {k[0]} which is not derived from the target state at all", inp, {"kind": "extra-unset", "state": k[1]})
         if True:
             for k in exp_unsets:
                 ws = got_unsets.get(k, set())
                 if set(workers) - ws:
-                    rep.violation(f"[{cid}] derived state {k[1]} of {k[0]} was not removed on workers {sorted(set(workers) - ws)}", inp, {"kind": "missing-unset", "state": k[1]})
+                    rep.violation(f"[{cid}] derived state {k[1]} of {k[0]} [{k[2]}] was not removed on workers {sorted(set(workers) - ws)}", inp, {"kind": "missing-unset", "state": k[1]})
         if r["door_gets"]:
             rep.note("state copy requests were issued during update")
         rep.distinct.add((cid, json.dumps(sorted(map(str, got_runs))), json.dumps(sorted(map(str, got_unsets)))))
         if len(rep.samples) < 4 and not c.get("prefix"):
-            rep.sample({"case": cid, "executed": sorted(f"{v}:{s}@{','.join(ws)}" for (v, s), ws in got_runs.items()), "removed": sorted(f"{v}:{s}" for (v, s) in got_unsets)})
+            rep.sample({"case": cid, "executed": sorted(f"{v}:{s}@{','.join(ws)}" for (v, s, _), ws in got_runs.items()), "removed": sorted(f"{v}:{s}" for (v, s, _) in got_unsets)})
     rep.states = len(results)
     rep.sections["cases"] = len(cases)
     rep.sections["schedule_deviation_runs"] = len(extra)
